@@ -515,6 +515,8 @@ def _type_name_for_error_messages(expression_type):
     elif expression_type.which_type == "enumeration":
         # TODO(bolms): Should this be the fully-qualified name?
         return expression_type.enumeration.name.canonical_name.object_path[-1]
+    elif expression_type.which_type == "boolean":
+        return "boolean"
     assert False, "Shouldn't be here."
 
 
